@@ -21,7 +21,11 @@ Definition cmsg := (N * N * option (N * N * N * N) * body)%type.
    files existing in the auto-save directory before the run (base name, content) *)
 Definition ccfg := (bool * bool * bool * option N * option N * option (list N) * option (list (list N)) *
                     list (list N * list N))%type.
-Definition case_C17 := (ccfg * list cmsg)%type.
+(* the file-system state the save paths run in, and the manual saves done after the log:
+   directories (full paths: exist, cannot be created as files), further files existing before the run (full path,
+   content), save commands (transfer number, saveAs path, file-system oracle "File::create + write succeed there") *)
+Definition sx := (list (list N) * list (list N * list N) * list (N * list N * bool))%type.
+Definition case_C17 := (ccfg * list cmsg * sx)%type.
 
 (* integer argument styles: 0..3 = UINT 8/16/32/64 bit, 4..7 = SINT 8/16/32/64 bit; the value is truncated *)
 Definition sty_bytes (sty : N) : nat :=
@@ -111,17 +115,37 @@ Fixpoint ins_file (f : list N * list N) (l : list (list N * list N)) : list (lis
   end.
 Definition sort_files (l : list (list N * list N)) : list (list N * list N) := fold_right ins_file [] l.
 
-Definition o_run (c : cfg) (r : res (st * list bool)) : otree :=
+Definition is_dir (dirs : list (list N)) (p : list N) : bool := existsb (bytes_eqb p) dirs.
+
+(* the save commands in order; per command: the result and what the target holds afterwards (nothing for a directory) *)
+Fixpoint run_saves (dirs : list (list N)) (s : st) (ops : list (N * list N * bool)) : st * list otree :=
+  match ops with
+  | [] => (s, [])
+  | (i, p, cr) :: r =>
+      let '(s1, b) := save_cmd cr s (N.to_nat i) p in
+      let after := if is_dir dirs p then None else lookup_path p (s_fs s1) in
+      let '(s2, os) := run_saves dirs s1 r in
+      (s2, T [ob b; oopt o_blob after] :: os)
+  end.
+
+Definition o_run (c : cfg) (x : sx) (r : res (st * list bool)) : otree :=
+  let '(dirs, _, ops) := x in
   match r with
   | Ok (s, rets) =>
+      let '(s', saves) := run_saves dirs s ops in
       T [L 0; T (map ob rets); L (s_gen s); T (o_transfers c s 0 (s_pub s));
-         T (map (fun f => T [o_bytes (fst f); o_blob (snd f)]) (sort_files (s_fs s)))]
+         T (map (fun f => T [o_bytes (fst f); o_blob (snd f)])
+              (filter (fun f => negb (is_dir dirs (fst f))) (sort_files (s_fs s'))));
+         T saves]
   | Panic _ => T [L 1]
   | OutOfFuel => T [L 2]
   end.
 
+Definition fs0_of (cc : ccfg) (x : sx) : list (list N * list N) :=
+  let '(dirs, extra, _) := x in pre_of cc ++ extra ++ map (fun d => (d, [])) dirs.
+
 Definition run_C17 (c : case_C17) : otree :=
-  let '(cc, ms) := c in
-  o_run (cfg_of cc) (run (cfg_of cc) (init_st (pre_of cc)) (map expand_msg ms)).
+  let '(cc, ms, x) := c in
+  o_run (cfg_of cc) x (run (cfg_of cc) (init_st (fs0_of cc x)) (map expand_msg ms)).
 
 Definition agree_C17 : case_C17 -> otree -> bool := agree_det run_C17.
